@@ -1,4 +1,5 @@
 import TexcraftModel.Model.C09
+import TexcraftModel.Model.C09Alloc
 import TexcraftModel.Util.Proto
 open Proto C09
 
@@ -12,6 +13,9 @@ Driver for C09. Requests:
       → `ok <code points of the printed line> ; located=<0|1> old=<panic|same|diff>` or `panic`
 * `trace <off> | <code point>*` → `ok <line> <pos> <code points of the line>` or `panic`
 * `eoi | <code point>*` → the same for `trace_end_of_input`
+* `alloc (n <name> <len> | w <name> <i> <v> | r <name> <i>)*` → outputs of `runOps` (`v<val>`, `rec`, `fatal`, `panic`)
+* `depth <k>` → `max=<num_current_sources> end=<ok|fatal>` for k nested `\input`s
+* `shape <k> <ok|fatal|end>` → outcome in scroll and in errorstop mode of k recoverable errors followed by that end
 * `chr <i>` → `ok <c>` | `err <c>` | `panic`        (`charFromCode`)
 * `uint <N> <i>` → `ok <v>` | `err <v>`             (`uintBound`)
 * `ifcase <n> <k>` → `some <j>` | `none`            (`ifcaseSelect`)
@@ -49,6 +53,20 @@ def showChars (l : List Char) : String := showNats (l.map Char.toNat)
 def showR : R Nat → String
   | .ok v => s!"ok {v}" | .err v => s!"err {v}" | .panic => "panic"
 
+def showAOut : AOut → String
+  | .val v => s!"v{v}" | .recovered => "rec" | .fatal => "fatal" | .panic => "panic"
+
+/-- `n <name> <len>` | `w <name> <i> <v>` | `r <name> <i>` -/
+def decOps : List String → Option (List AOp)
+  | [] => some []
+  | "n" :: a :: b :: rest => do
+    let a ← a.toNat?; let b ← b.toNat?; let r ← decOps rest; pure (.new a b :: r)
+  | "w" :: a :: i :: v :: rest => do
+    let a ← a.toNat?; let i ← i.toInt?; let v ← v.toInt?; let r ← decOps rest; pure (.write a i v :: r)
+  | "r" :: a :: i :: rest => do
+    let a ← a.toNat?; let i ← i.toInt?; let r ← decOps rest; pure (.read a i :: r)
+  | _ => none
+
 def handle (line : String) : String :=
   match words line with
   | "proto" :: m :: evs =>
@@ -84,6 +102,22 @@ def handle (line : String) : String :=
       | .ok ln pos c => s!"ok {ln} {pos} {showChars c}"
       | .panic => "panic"
     | none => "bad-request"
+  | "alloc" :: ws =>
+    match decOps ws with
+    | some ops => " ".intercalate ((runOps Alloc.empty ops).map showAOut)
+    | none => "bad-request"
+  | ["depth", k] =>
+    match k.toNat? with
+    | some k =>
+      let ops := List.replicate k IOp.input ++ List.replicate k IOp.endSource
+      s!"max={maxDepth 1 ops + 1} end={if endsFatal 1 ops then "fatal" else "ok"}"
+    | none => "bad-request"
+  | ["shape", k, fin] =>
+    match k.toNat?, (match fin with | "ok" => some Ev.ok | "fatal" => some Ev.fatal | "end" => some Ev.shutdown | _ => none) with
+    | some k, some f =>
+      let evs := List.replicate k Ev.recoverable ++ [f]
+      s!"scroll={showOutcome (run .scroll evs)} errorstop={showOutcome (run .errorstop evs)}"
+    | _, _ => "bad-request"
   | ["chr", i] =>
     match i.toInt? with
     | some i => showR (charFromCode i)
